@@ -246,6 +246,39 @@ fn main() {
         res.violation("compute-signature-differs", &format!("compute_signature {theirs} vs independent HMAC {own}"), json!({"input": "Hello world"}));
     }
 
+    // secrets of every size the host may issue (the MAC is under the whole secret of the named key, whatever its size):
+    // 8 .. 1024 bit, around the 256-bit habit and around the HMAC block size, through compute_signature and through the
+    // request-building route
+    let mut secret_shapes = 0u64;
+    for nbytes in [1usize, 8, 16, 31, 32, 33, 48, 63, 64, 65, 96, 128] {
+        for fill in 0..3u8 {
+            let secret: String = (0..nbytes).map(|i| format!("{:02X}", (i as u8).wrapping_mul(37).wrapping_add(fill.wrapping_mul(91)).wrapping_add(1))).collect();
+            for msg in [&b""[..], b"Hello world", b"GET\n\nhost:168.63.129.16\n/\n"] {
+                secret_shapes += 1;
+                let own = sigref::mac_hex(&secret, msg).unwrap();
+                match gpa_harness::common::helpers::compute_signature(&secret, msg) {
+                    Ok(t) if t.to_lowercase() == own => {}
+                    Ok(t) => res.violation("mac-not-under-the-whole-secret", &format!("a secret of {nbytes} bytes: compute_signature gives {t}, HMAC-SHA256 under the whole secret is {own}"), json!({"family": "secret-shapes", "secret": secret, "message": String::from_utf8_lossy(msg)})),
+                    Err(e) => res.violation("mac-not-under-the-whole-secret", &format!("a secret of {nbytes} bytes: compute_signature fails: {e}"), json!({"family": "secret-shapes", "secret": secret})),
+                }
+            }
+            let url: hyper::Uri = "http://168.63.129.16/machine?comp=goalstate".parse().unwrap();
+            let hm: HashMap<String, String> = HashMap::new();
+            if let Ok(req) = hyper_client::build_request(hyper::Method::GET, &url, &hm, None, Some(GUID.to_string()), Some(secret.clone())) {
+                secret_shapes += 1;
+                let (parts, _b) = req.into_parts();
+                let own_h = parts.headers.get_all(sigref::AUTHZ).iter().last().map(|v| String::from_utf8_lossy(v.as_bytes()).to_string()).unwrap_or_default();
+                let subj = hyper_client::as_sig_input(parts.clone(), hyper::body::Bytes::new());
+                let want = sigref::mac_hex(&secret, &subj).unwrap();
+                match sigref::parse_authz(&own_h) {
+                    Some((_g, mac)) if mac.to_lowercase() == want => {}
+                    _ => res.violation("mac-not-under-the-whole-secret", &format!("a secret of {nbytes} bytes: the built request carries {own_h:?}, HMAC-SHA256 of its string-to-sign under the whole secret is {want}"), json!({"family": "secret-shapes", "secret": secret, "route": "build_request"})),
+                }
+            }
+        }
+    }
+    res.cov("secret_shapes_checked", secret_shapes);
+
     let methods = ["GET", "POST", "PUT"];
     let paths = ["/", "/a", "/a%2Fb", "/A"];
     let keys = ["a", "ab", "A", "b"];
